@@ -38,3 +38,6 @@ import RenetVerif.Props.SrcTieNcTokenGen
 import RenetVerif.Props.SrcTieNcClient
 import RenetVerif.Props.SrcTieTrServer
 import RenetVerif.Props.SrcTieTrClient
+import RenetVerif.Props.SrcTieTrInv
+import RenetVerif.Props.SrcTieInv
+import RenetVerif.Props.SrcTieTrClosed
